@@ -613,6 +613,13 @@ class Engine:
                 i0s = z3.simplify(i0)
                 if z3.is_bv_value(i0s) and (i0s.as_signed_long() * sz) % es == 0:
                     return Ptr(p.obj, z3.simplify(off + (i0s.as_signed_long() * sz) // es))
+                # symbolic byte offset that is provably a multiple of the element size (8 * index, index << 3, itemsize * position ...)
+                byte = i0s * z3.BitVecVal(sz, 64)
+                if z3.is_bv_value(z3.simplify(z3.URem(byte, z3.BitVecVal(es, 64)))) and z3.simplify(z3.URem(byte, z3.BitVecVal(es, 64))).as_long() == 0:
+                    return Ptr(p.obj, z3.simplify(off + z3.simplify(byte / z3.BitVecVal(es, 64))))
+                q = z3.simplify(z3.Extract(es.bit_length() - 2, 0, byte)) if es & (es - 1) == 0 and es > 1 else None
+                if q is not None and z3.is_bv_value(q) and q.as_long() == 0:
+                    return Ptr(p.obj, z3.simplify(off + z3.SignExt(es.bit_length() - 1, z3.Extract(63, es.bit_length() - 1, byte))))
             if len(idx) > 1 and sz % es == 0:
                 # array of structs stored as an array of es-byte cells (vector<shared_ptr<T>> as pairs of pointers):
                 # element index may be symbolic, the field path inside the struct must be concrete and cell-aligned
@@ -1520,6 +1527,38 @@ class Engine:
                                        z3.Select(os_.arr, i - doff + soff), z3.Select(od.arr, i)))
             self.add_obl('bounds', st, z3.And(ne != 0, z3.Or(doff < 0, doff + ne > od.cap, z3.UGT(ne, z3.BitVecVal(1 << 60, 64)))), 'memcpy store outside capacity of %s' % dst.obj, where)
             self.add_obl('bounds', st, z3.And(ne != 0, z3.Or(soff < 0, soff + ne > os_.cap, z3.UGT(ne, z3.BitVecVal(1 << 60, 64)))), 'memcpy load outside capacity of %s' % src.obj, where)
+            st.mem.o[dst.obj] = od.with_arr(arr)
+            return
+        if isinstance(od, ArrayObj) and isinstance(os_, ArrayObj) and od.kind[0] == 'i' and os_.kind[0] == 'i' and od.kind != os_.kind and z3.is_bv_value(n) \
+                and 8 in (od.kind[1], os_.kind[1]):
+            # byte buffer <-> wider integer buffer (a void* allocation filled from typed data, or the reverse), concrete length: little-endian bytes
+            nb = n.as_long()
+            if od.const:
+                self.add_obl('const-write', st, n != 0, 'memcpy to read-only object %s' % dst.obj, where)
+            if od.kind[1] == 8:
+                w = os_.kind[1] // 8
+                if nb % w:
+                    raise Unsupported('memcpy of partial elements')
+                arr = od.arr
+                for e in range(nb // w):
+                    v = z3.Select(os_.arr, src.off + e)
+                    for b in range(w):
+                        arr = z3.Store(arr, dst.off + e * w + b, z3.Extract(8 * b + 7, 8 * b, v))
+                if nb:
+                    self.add_obl('bounds', st, z3.Or(dst.off < 0, dst.off + nb > od.cap), 'memcpy store outside capacity of %s' % dst.obj, where)
+                    self.add_obl('bounds', st, z3.Or(src.off < 0, src.off + nb // w > os_.cap), 'memcpy load outside capacity of %s' % src.obj, where)
+                st.mem.o[dst.obj] = od.with_arr(arr)
+                return
+            w = od.kind[1] // 8
+            if nb % w:
+                raise Unsupported('memcpy of partial elements')
+            arr = od.arr
+            for e in range(nb // w):
+                v = z3.Concat(*[z3.Select(os_.arr, src.off + e * w + b) for b in reversed(range(w))])
+                arr = z3.Store(arr, dst.off + e, v)
+            if nb:
+                self.add_obl('bounds', st, z3.Or(dst.off < 0, dst.off + nb // w > od.cap), 'memcpy store outside capacity of %s' % dst.obj, where)
+                self.add_obl('bounds', st, z3.Or(src.off < 0, src.off + nb > os_.cap), 'memcpy load outside capacity of %s' % src.obj, where)
             st.mem.o[dst.obj] = od.with_arr(arr)
             return
         if isinstance(od, RecObj) and isinstance(os_, ArrayObj) and os_.kind == ('i', 8) and z3.is_bv_value(n):
